@@ -148,3 +148,5 @@ func parseRSAPEM(b []byte) *rsa.PrivateKey {
 	}
 	return nil
 }
+
+type x509Cert = x509.Certificate
